@@ -23,8 +23,13 @@ RULE = ("cases are plain data: (operator method, self leaf, other leaf), express
         "shortest iterable operand, or the same element-level exception type at the same "
         "index) with an independent list interpreter that applies the builtin operator "
         "or the documented closed form to the i-th items; a complete grid "
-        "35 methods x 8 self kinds x 15 other kinds is enumerated as well; "
-        "non-trivial = expected result has >= 2 elements and not every operand is a "
+        "35 methods x 8 self kinds x 15 other kinds is enumerated as well; whenever some position's "
+        "element operation raises, the expression is built a second time and read by a consumer that "
+        "catches every element error and keeps pulling the same result: every later position must still "
+        "be the operator applied to that position's elements and the end must come where the shortest "
+        "iterable operand ends (clauses faulty / faulty_trees plant such positions on purpose); clause "
+        "deep stacks 2600..12000 operators on top of each other; "
+        "non-trivial = expected result has >= 2 positions and not every operand is a "
         "scalar (broadcast: container with >= 2 items); distinct = distinct case hash")
 ASSUMPTIONS = [
   "the 35 operator methods are the hard-coded names 13 binary x (plain, reflected) + 6 comparisons + 3 unary; abs() is checked in addition",
@@ -36,6 +41,9 @@ ASSUMPTIONS = [
   "zip / enumerate inputs are checked for laziness and result kind only (their items are tuples, on which the scalar functions are undefined)",
   "after the result has ended, one more next() must not yield a value (StopIteration, or the failure of a longer operand's later element, are both accepted)",
   "set / frozenset inputs are compared with set semantics (results that compare equal collapse; any representative may survive)",
+  "reading on after a caught element-level exception is asserted for operator results (the 35 methods and abs): position i is op(a_i, b_i) for every i below the shortest operand's length, whatever happened at earlier positions. When an *operand* of a nested operator could itself not produce position i (a failure inherited from a sub-expression), the result's position i fails with that class too, and the model follows the later positions only if the partner is a scalar or the operator is unary: the property does not say whether the partner iterable's i-th element counts as consumed then (the library consumes it when the failing operand is pulled second and not when it is pulled first), so nothing is asserted from that position on",
+  "attribute / method-call nodes and broadcast functions are not asserted beyond their first failing position: a broadcast function must return the kind of container it was given, over a list it raises as a whole and over a generator it returns a generator, which the first exception finishes by construction; over a Stream (and for Stream.attr / Stream.method()) the library behaves the same way (the result ends after the failing position)",
+  "deep chains use depths above the interpreter's default recursion limit plus the 2000 frames Hypothesis reserves, with +, -, *, comparisons and bitwise operators on small ints / halves / bools (no element failures), evaluated level by level without recursion in the check itself",
   "lazy inputs (generator, range, map, filter, zip, enumerate) must come back as a generator with zero source pulls before iteration; a Stream (or a Stream subclass such as a StreamTeeHub) comes back as a Stream, also unpulled",
 ]
 
@@ -322,6 +330,165 @@ def compare(res, model, what):
 
 
 # --------------------------------------------------------------------------
+# reading on after a caught element-level exception
+# --------------------------------------------------------------------------
+OPEN = "open"     # nothing is asserted beyond the modelled positions
+
+
+class Bad(object):
+  """A position whose element operation raises (one of) the given exception classes."""
+  __slots__ = ("excs",)
+
+  def __init__(self, excs):
+    self.excs = frozenset(excs)
+
+  def __repr__(self):
+    return "<%s>" % "/".join(sorted(e.__name__ for e in self.excs))
+
+
+class R(object):
+  """Position-by-position model: outs[i] is a value or Bad; tails is ENDLESS, OPEN or a set
+  of {STOP, exception classes} saying what the pull after the last position gives."""
+  __slots__ = ("outs", "tails", "scalar")
+
+  def __init__(self, outs, tails, scalar=False):
+    self.outs = outs
+    self.tails = tails
+    self.scalar = scalar
+
+
+def r_leaf(kind, p):
+  m = m_leaf(kind, p)
+  return R(list(m.vals), m.tails, m.scalar)
+
+
+def r_bin(f, a, b):
+  """Operator node.  Position i of the result is f(a_i, b_i) whatever happened at the positions
+  before.  A position an *operand* could not produce (a nested failure) fails in the result too;
+  the property does not say whether the partner's element of that position is consumed then, so
+  the model goes on only when the partner is a scalar and is OPEN from there otherwise."""
+  n = min(len(a.outs), len(b.outs))
+  outs = []
+  for i in range(n):
+    x, y = a.outs[i], b.outs[i]
+    xb, yb = isinstance(x, Bad), isinstance(y, Bad)
+    if xb or yb:
+      outs.append(Bad((x.excs if xb else frozenset()) | (y.excs if yb else frozenset())))
+      if (xb and not b.scalar) or (yb and not a.scalar):
+        return R(outs, OPEN)
+      continue
+    try:
+      outs.append(f(x, y))
+    except Exception as e:
+      outs.append(Bad([type(e)]))
+  tails = set()
+  for o in (a, b):
+    if len(o.outs) == n:
+      if o.tails == OPEN:
+        return R(outs, OPEN)
+      if o.tails != ENDLESS:
+        tails |= o.tails
+    elif isinstance(o.outs[n], Bad):
+      # the longer operand fails at the very index where the other one ends: either termination
+      tails |= o.outs[n].excs
+  if not tails:
+    return R(outs, ENDLESS)
+  return R(outs, tails)
+
+
+def r_un(f, a, resumes=True):
+  """Unary node.  resumes=False: attribute / call / broadcast-function nodes, for which the
+  property does not promise anything after a failing position (a broadcast function over a
+  list raises as a whole, over a generator it returns a generator, which is finished by the
+  first exception): OPEN from the first failing position on."""
+  outs = []
+  for x in a.outs:
+    if isinstance(x, Bad):
+      outs.append(x)
+    else:
+      try:
+        outs.append(f(x))
+        continue
+      except Exception as e:
+        outs.append(Bad([type(e)]))
+    if not resumes:
+      return R(outs, OPEN)
+  return R(outs, a.tails)
+
+
+def has_bad(r):
+  return any(isinstance(x, Bad) for x in r.outs)
+
+
+def resume_labels(r):
+  bad = [i for i, x in enumerate(r.outs) if isinstance(x, Bad)]
+  if not bad:
+    return []
+  labels = []
+  if any(not isinstance(x, Bad) for x in r.outs[bad[0] + 1:]):
+    labels.append("value after a failing position")
+  if len(r.outs) > bad[0] + 1 or r.tails not in (OPEN, ENDLESS):
+    labels.append("read on after exception")
+  if len(bad) > 1:
+    labels.append("several failing positions")
+  if r.tails == OPEN:
+    labels.append("open after nested failure")
+  return labels
+
+
+def _otxt(o):
+  if o == STOP:
+    return STOP
+  if isinstance(o, tuple):
+    return repr(o[0])
+  return o.__name__
+
+
+def compare_resumed(res, r, what):
+  """The consumer catches every element-level exception and keeps pulling the same result."""
+  it = iter(res)
+  limit = len(r.outs) + (0 if r.tails in (ENDLESS, OPEN) else 1)
+  got = []                      # (value,) / exception class / STOP
+  for _ in range(limit):
+    try:
+      got.append((next(it),))
+    except StopIteration:
+      try:
+        extra = next(it)
+      except Exception:
+        got.append(STOP)
+        break
+      raise Violation("%s: result yielded %r after raising StopIteration (read so far: %s)"
+                      % (what, extra, ", ".join(_otxt(g) for g in got)))
+    except Exception as e:
+      got.append(type(e))
+
+  def fail(k, why):
+    raise Violation("%s: reading on after caught element exceptions, pull %d %s: got [%s], expected %r then %s"
+                    % (what, k, why, ", ".join(_otxt(g) for g in got), r.outs,
+                       r.tails if isinstance(r.tails, str) else tails_txt(r.tails)))
+  for k, e in enumerate(r.outs):
+    if k >= len(got) or got[k] == STOP:
+      fail(k, "ended although every iterable operand still has an element for this position")
+    g = got[k]
+    if isinstance(e, Bad):
+      if isinstance(g, tuple):
+        fail(k, "gave a value where the element operation raises")
+      if g not in e.excs:
+        fail(k, "raised another exception class")
+    elif not isinstance(g, tuple):
+      fail(k, "raised %s where the element operation gives a value" % g.__name__)
+    elif sig(g[0]) != sig(e):
+      fail(k, "differs")
+  if r.tails not in (ENDLESS, OPEN):
+    k = len(r.outs)
+    end = got[k] if k < len(got) else None
+    if isinstance(end, tuple) or end not in r.tails:
+      fail(k, "must be the end (%s)" % tails_txt(r.tails))
+  return got
+
+
+# --------------------------------------------------------------------------
 # operator tables
 # --------------------------------------------------------------------------
 BIN = "add sub mul truediv floordiv mod pow rshift lshift and or xor matmul".split()
@@ -481,25 +648,73 @@ def ofinite_c(spec):
                                              (2, stream_leaf(SPECS[spec], "none"))))
 
 
+def _for_domain(m, d):
+  base, rev, arity = minfo(m)
+  fam, left, right = d
+  head = dict(m=st.just(m), fam=st.just(fam))
+  if arity == 1:
+    return st.fixed_dictionaries(dict(head, s=sleaf_c(left), o=st.none()))
+  sspec, ospec = (right, left) if rev else (left, right)
+  return wone(
+    (6, st.fixed_dictionaries(dict(head, s=sleaf_c(sspec), o=oleaf_c(ospec)))),
+    (1, st.fixed_dictionaries(dict(head, s=sleaf_c(sspec, "true"), o=ofinite_c(ospec)))),
+    (1, st.fixed_dictionaries(dict(head, s=sleaf_c(sspec, "none"), o=sleaf_c(ospec, "true")))))
+
+
 def _matrix_for_method(m):
   base, rev, arity = minfo(m)
-
-  def for_domain(d):
-    fam, left, right = d
-    head = dict(m=st.just(m), fam=st.just(fam))
-    if arity == 1:
-      return st.fixed_dictionaries(dict(head, s=sleaf_c(left), o=st.none()))
-    sspec, ospec = (right, left) if rev else (left, right)
-    return wone(
-      (6, st.fixed_dictionaries(dict(head, s=sleaf_c(sspec), o=oleaf_c(ospec)))),
-      (1, st.fixed_dictionaries(dict(head, s=sleaf_c(sspec, "true"), o=ofinite_c(ospec)))),
-      (1, st.fixed_dictionaries(dict(head, s=sleaf_c(sspec, "none"), o=sleaf_c(ospec, "true")))))
-  return st.sampled_from(domain(base)).flatmap(lambda d: cached(("matrix", m, d), lambda: for_domain(d)))
+  return st.sampled_from(domain(base)).flatmap(lambda d: cached(("matrix", m, d), lambda: _for_domain(m, d)))
 
 
 def strat_matrix(tier):
   return st.sampled_from(METHODS + ["abs"]).flatmap(
     lambda m: cached(("matrix", m), lambda: _matrix_for_method(m)))
+
+
+# the same matrix over operands in which SOME positions make the element operation raise ----------
+_MX1 = {"mx": [1, 2, 3, 4]}
+_REAL3 = st.one_of(st.integers(-3, 3), st.sampled_from([0.5, -1.5, 2.0, Fraction(1, 2), Fraction(-2, 3), True]))
+SPECS.update({
+  # shifts: a negative count raises ValueError, None / a float TypeError
+  "f_wide": (wone((6, WIDE), (1, st.sampled_from([None, 1.5]))), None),
+  "f_shifts": (wone((4, st.integers(0, 8)), (2, st.sampled_from([-1, -2, -1, None]))), None),
+  # bitwise: floats and None do not implement them
+  "f_bits": (wone((4, BITS), (1, st.sampled_from([None, 1.5, 2.0]))), None),
+  # pow: 0 ** negative (ZeroDivisionError), 1e10 ** 400 (OverflowError), None (TypeError)
+  "f_powb": (st.sampled_from([0, 0.0, 0, 2, 3, -1.5, 2.0, 1e10, 1e10, Fraction(1, 2), None]), None),
+  "f_powe": (st.sampled_from([-1, -2, 2, 3, 0.5, 1, 400, 400, None]), None),
+  # matmul: only Mx @ Mx is defined
+  "f_mx": (wone((4, MXS), (1, st.sampled_from([1, None, 2.5]))), None),
+  # division: zeros of every type among the divisors
+  "f_num": (wone((7, _REAL3), (1, st.just(None))), None),
+  "f_den": (wone((3, _REAL3), (2, st.sampled_from([0, 0.0, False, Fraction(0), 0, None]))), None),
+  # order comparisons: complex numbers and None are not ordered
+  "f_ord": (wone((4, _REAL3), (1, st.sampled_from([None, 1j, 2 + 0j]))), None),
+  # + - * and the unary operators: None and (for the mixed pairs) a matrix among numbers
+  "f_any": (wone((4, st.one_of(_REAL3, CPLX)), (1, st.sampled_from([None, None, _MX1]))), None),
+})
+FAULTY_METHODS = [m for m in METHODS + ["abs"] if m not in ("eq", "ne")]   # == and != never raise here
+
+
+def faulty_domain(base):
+  if base in ("rshift", "lshift"):
+    return ("faulty", "f_wide", "f_shifts")
+  if base in ("and", "or", "xor", "invert"):
+    return ("faulty", "f_bits", "f_bits")
+  if base == "pow":
+    return ("faulty", "f_powb", "f_powe")
+  if base == "matmul":
+    return ("faulty", "f_mx", "f_mx")
+  if base in ("truediv", "floordiv", "mod"):
+    return ("faulty", "f_num", "f_den")
+  if base in ("lt", "le", "gt", "ge"):
+    return ("faulty", "f_ord", "f_ord")
+  return ("faulty", "f_any", "f_any")
+
+
+def strat_faulty(tier):
+  return st.sampled_from(FAULTY_METHODS).flatmap(
+    lambda m: cached(("faulty", m), lambda: _for_domain(m, faulty_domain(minfo(m)[0]))))
 
 
 def run_matrix(case):
@@ -517,6 +732,8 @@ def run_matrix(case):
     res = getattr(s, dunder)()
     model = m_un(f, ms)
     operands = [ms]
+    rmodel = r_un(f, r_leaf(skind, sp))
+    again = lambda: getattr(b_leaf(skind, sp), dunder)()
   else:
     okind, op = case["o"]
     o = b_leaf(okind, op)
@@ -526,14 +743,22 @@ def run_matrix(case):
     if rev:
       labels.append("reflected")
       model = m_bin(f, mo, ms)
+      rmodel = r_bin(f, r_leaf(okind, op), r_leaf(skind, sp))
     else:
       model = m_bin(f, ms, mo)
+      rmodel = r_bin(f, r_leaf(skind, sp), r_leaf(okind, op))
     operands = [ms, mo]
+    again = lambda: getattr(b_leaf(skind, sp), dunder)(b_leaf(okind, op))
   if type(res) is not Stream:
     raise Violation("%s.%s(%s) returned %r, not a Stream" % (skind, dunder, case["o"] and case["o"][0], res))
-  compare(res, model, "%s %s on %r / %r" % (dunder, case["fam"], case["s"], case["o"]))
+  what = "%s %s on %r / %r" % (dunder, case["fam"], case["s"], case["o"])
+  compare(res, model, what)
   labels += outcome_labels(model, operands)
-  nt = len(model.vals) >= 2 and not all(o.scalar for o in operands)
+  if has_bad(rmodel):
+    # the same expression built anew; this time the consumer catches element errors and reads on
+    compare_resumed(again(), rmodel, what)
+    labels += resume_labels(rmodel)
+  nt = (len(model.vals) >= 2 or (has_bad(rmodel) and len(rmodel.outs) >= 2)) and not all(o.scalar for o in operands)
   return {"nontrivial": nt, "labels": labels}
 
 
@@ -659,7 +884,20 @@ MODES = {
            ["invert", "neg", "pos", "abs"], False),
   "mx": (["mx"], ["matmul", "matmul", "eq", "ne"], [], False),
   "wild": (["wild", "mixed", "int"], BIN + CMP, UN + ["abs"], True),
+  # leaves in which some positions make an operation of the expression raise (None among the numbers,
+  # zeros met by a division) while the other positions are fine: the consumer reads on (run_trees)
+  "faulty": (["p_int", "p_real", "p_int"],
+             ["add", "sub", "mul", "truediv", "floordiv", "mod", "truediv", "mod", "lt", "le", "eq", "gt"],
+             ["pos", "neg", "abs"], True),
+  "faulty_ops": (["p_int", "p_real", "p_int"],
+                 ["add", "sub", "mul", "truediv", "floordiv", "mod", "truediv", "mod", "lt", "ge", "ne"],
+                 ["pos", "neg", "abs"], False),
+  "faulty_bits": (["p_bits"], ["and", "or", "xor", "add", "sub", "floordiv", "mod", "lshift", "rshift", "ge"],
+                  ["invert", "neg", "pos"], False),
 }
+FAM["p_int"] = wone((6, st.integers(-3, 3)), (1, st.just(None)))
+FAM["p_real"] = wone((6, _REAL3), (1, st.just(None)))
+FAM["p_bits"] = wone((6, st.one_of(st.integers(-4, 4), BOOLS)), (1, st.sampled_from([None, 1.5])))
 
 
 def tree_strategy(mode, depth):
@@ -734,6 +972,14 @@ def strat_trees(tier):
       dict(mode=st.just(md[0]), tree=tree_strategy(*md)))))
 
 
+def strat_faulty_trees(tier):
+  depths = [1, 2, 2, 3] if tier == "quick" else [1, 2, 3, 3, 4]
+  modes = ["faulty"] * 2 + ["faulty_ops"] * 3 + ["faulty_bits"] * 2
+  return st.tuples(st.sampled_from(modes), st.sampled_from(depths)).flatmap(
+    lambda md: cached(("tree", md), lambda: st.fixed_dictionaries(
+      dict(mode=st.just(md[0]), tree=tree_strategy(*md)))))
+
+
 def ev_real(t, path="t"):
   tag = t[0]
   if tag == "L":
@@ -783,6 +1029,23 @@ def ev_model(t, stats):
   return m_un(f, a), 1 + da
 
 
+def ev_rmodel(t):
+  """The tree as a position-by-position model (see r_bin / r_un)."""
+  tag = t[0]
+  if tag == "L":
+    return r_leaf(t[1], t[2])
+  if tag == "B":
+    return r_bin(OPF[t[1]], ev_rmodel(t[2]), ev_rmodel(t[3]))
+  a = ev_rmodel(t[2])
+  if tag == "U":
+    return r_un(OPF[t[1]], a)
+  if tag == "F":
+    return r_un(FN_NODES[t[1]], a, resumes=False)
+  if tag == "A":
+    return r_un(operator.attrgetter(t[1]), a, resumes=False)
+  return r_un(operator.methodcaller(t[1]), a, resumes=False)
+
+
 def run_trees(case):
   tree = case["tree"]
   stats = {"leaves": [], "ops": set(), "reflected": False}
@@ -791,16 +1054,94 @@ def run_trees(case):
   if type(res) is not Stream:
     raise Violation("expression evaluated to %r, not a Stream" % (res,))
   compare(res, model, "tree %r" % (tree,))
+  rmodel = ev_rmodel(tree)
+  rlabels = []
+  if has_bad(rmodel):
+    compare_resumed(ev_real(tree), rmodel, "tree %r" % (tree,))
+    rlabels = resume_labels(rmodel)
   operands = [m for _, m in stats["leaves"]]
   labels = ["depth:%d" % depth, "mode:" + case["mode"], "leaves:%d" % min(len(operands), 6)]
   labels += outcome_labels(model, operands)
   if stats["reflected"]:
     labels.append("plain operand on the left")
   labels += sorted("leaf:" + k for k in set(k for k, _ in stats["leaves"]))
-  nt = len(model.vals) >= 2 and not all(o.scalar for o in operands) and depth >= 1
+  nt = ((len(model.vals) >= 2 or (has_bad(rmodel) and len(rmodel.outs) >= 2)) and
+        not all(o.scalar for o in operands) and depth >= 1)
   if depth >= 2:
     labels.append("nested")
-  return {"nontrivial": nt, "labels": labels}
+  return {"nontrivial": nt, "labels": labels + rlabels}
+
+
+# --------------------------------------------------------------------------
+# "arbitrarily nested": chains thousands of operators deep (a sum of partials built in a loop)
+# --------------------------------------------------------------------------
+DEEP = {
+  # mode: (element strategy, binary operators, unary operators)
+  "num": (st.one_of(st.integers(-3, 3), st.integers(-3, 3), st.sampled_from([0.5, -1.5, 2.0, True])),
+          ["add", "add", "sub", "mul", "lt", "ge", "ne"], ["neg", "pos", "abs"]),
+  "bits": (st.one_of(st.integers(-9, 9), BOOLS), ["and", "or", "xor", "add", "sub", "eq"], ["invert", "neg", "pos"]),
+}
+
+
+def strat_deep(tier):
+  lo, hi = (2600, 6000) if tier == "quick" else (2600, 12000)
+
+  def for_mode(mode):
+    e, bins, uns = DEEP[mode]
+    spec = (e, None)
+    base = st.one_of([st.tuples(st.just(k), st.lists(e, min_size=3, max_size=6))
+                      for k in ("s_list", "s_tuple", "s_gen", "s_iter")])
+    flist = st.lists(e, min_size=3, max_size=7)
+    operand = wone(
+      (3, st.tuples(st.just("scalar"), e)),
+      (3, st.tuples(st.sampled_from(["list", "tuple", "gen", "iter", "deque"]), flist)),
+      (2, st.tuples(st.sampled_from(["s_list", "s_gen", "s_tuple"]), flist)),
+      (1, st.tuples(st.just("s_cyc"), st.lists(e, min_size=1, max_size=4))),
+      (1, stream_leaf(spec, "true")))
+    step = wone(
+      (7, st.tuples(st.just("B"), st.sampled_from(bins), st.sampled_from(["l", "r"]), operand)),
+      (1, st.tuples(st.just("U"), st.sampled_from(uns))))
+    return st.fixed_dictionaries(dict(mode=st.just(mode), base=base, depth=st.integers(lo, hi),
+                                      steps=st.lists(step, min_size=1, max_size=4)))
+  return st.sampled_from(["num", "num", "bits"]).flatmap(lambda m: cached(("deep", m, tier), lambda: for_mode(m)))
+
+
+def run_deep(case):
+  """base, then `depth` operators applied one on top of the other (the steps, cycled): every level
+  is an operator result used as an operand of the next; evaluated without recursion here."""
+  bkind, bp = case["base"]
+  steps = case["steps"]
+  depth = case["depth"]
+  cur = b_leaf(bkind, bp)
+  model = r_leaf(bkind, bp)
+  labels = ["mode:" + case["mode"], "depth:%dk" % (depth // 1000), "period:%d" % len(steps)]
+  kinds = set()
+  for k in range(depth):
+    st_ = steps[k % len(steps)]
+    if st_[0] == "U":
+      cur = SYN[st_[1]](cur)
+      model = r_un(OPF[st_[1]], model)
+      kinds.add("unary step")
+    else:
+      _, op, side, (okind, opl) = st_
+      operand = b_leaf(okind, opl)
+      mo = r_leaf(okind, opl)
+      if side == "l":
+        cur = SYN[op](operand, cur)
+        model = r_bin(OPF[op], mo, model)
+        kinds.add("chain on the right" if okind.startswith("s_") else "plain operand on the left")
+      else:
+        cur = SYN[op](cur, operand)
+        model = r_bin(OPF[op], model, mo)
+        kinds.add("chain on the left")
+      kinds.add("operand:" + okind)
+    if type(cur) is not Stream:
+      raise Violation("level %d of the chain (%r) evaluated to %r, not a Stream" % (k, st_, cur))
+  compare_resumed(cur, model, "chain of %d operators %r over %r" % (depth, steps, case["base"]))
+  labels += sorted(kinds) + resume_labels(model)
+  if model.tails == {STOP}:
+    labels.append("clean end")
+  return {"nontrivial": len(model.outs) >= 2, "labels": labels}
 
 
 # --------------------------------------------------------------------------
@@ -912,7 +1253,7 @@ GAMMAS = st.one_of(st.floats(0.1, 20, allow_nan=False), st.integers(1, 20),
 WITHSPECIAL = wone((7, REALS), (1, SPECIAL))
 POSF = st.one_of(st.floats(1e-6, 1e6, allow_nan=False, exclude_min=False), st.integers(1, 10 ** 6),
                  st.sampled_from([1, 1.0, 2, 8, 10, 100, 1000, 0.5, math.e]))
-LOGS = wone((10, POSF), (2, st.sampled_from([2 ** 29, 2 ** 31, 2 ** 39, 2 ** 47, 2 ** 51, 2 ** 58, 8, 1024, 10 ** 15, 3 ** 20])),
+LOGS = wone((10, POSF), (3, st.sampled_from([2 ** 29, 2 ** 31, 2 ** 39, 2 ** 47, 2 ** 51, 2 ** 58, 8, 1024, 10 ** 15, 3 ** 20])),
             (1, st.sampled_from([0, 0.0])), (2, st.floats(-1e3, -1e-3)), (1, st.integers(-50, -1)),
             (2, CPLX.filter(lambda z: z != 0)))
 LOG1PS = wone((6, st.floats(-0.999, 1e6, allow_nan=False)), (4, POSF), (1, st.sampled_from([-1, -1.0])),
@@ -1013,11 +1354,14 @@ def strat_broadcast(tier):
         extra = st.one_of(st.none(), st.sampled_from([("base", 2), ("base", 10), ("base", 0.5), ("base", math.e),
                                                       ("pbase", 3), ("pbase", 10), ("pbase", 0.5)]))
       elif name == "midi2str":
-        extra = st.one_of(st.none(), st.just(("sharp", False)), st.just(("sharp", True)))
+        extra = wone((1, st.none()), (2, st.just(("sharp", False))), (1, st.just(("sharp", True))))
       kw = st.booleans() if spec["kw"] else st.just(False)
       return st.fixed_dictionaries(dict(f=st.just(name), cont=st.just(cont), xs=xs, extra=extra, kw=kw))
     return st.one_of([for_cont(c) for c in conts])
-  return st.sampled_from(FNAMES).flatmap(lambda n: cached(("fn", n), lambda: for_fn(n)))
+  # the functions with a secondary argument, and log2 (exactness at integer powers of two), are drawn
+  # more often than the others (Hypothesis draws in clumps: a 1/47 share can stay empty in a shard)
+  return st.sampled_from(FNAMES + ["midi2str", "midi2str", "log", "ln", "log2", "log2"]).flatmap(
+    lambda n: cached(("fn", n), lambda: for_fn(n)))
 
 
 def _ident(x):
@@ -1314,6 +1658,19 @@ CLAUSES = [
   Clause("trees", strat_trees, run_trees, quick=2400, thorough=40000,
          floors={"nested": .2, "plain operand on the left": .1, "clean end": .25, "unequal lengths": .12},
          doc="nested expressions via operator syntax (reflected dispatch), unary, abs, attribute/call and broadcast nodes"),
+  Clause("faulty", strat_faulty, run_matrix, quick=1600, thorough=30000,
+         floors={"read on after exception": .15, "value after a failing position": .08,
+                 "several failing positions": .08, "reflected": .1, "scalar repeated": .02},
+         doc="the operator matrix over operands in which some positions make the element operation raise "
+             "(zero divisors, 0 ** negative, overflow, negative shift counts, None / matrices / floats where "
+             "the operator is undefined): the consumer catches the error and reads on - the later positions "
+             "are still op(i-th elements) and the end comes where the shortest operand ends"),
+  Clause("faulty_trees", strat_faulty_trees, run_trees, quick=1200, thorough=20000,
+         floors={"read on after exception": .08, "value after a failing position": .035, "nested": .17},
+         doc="nested expressions over such operands, read on after every caught element error"),
+  Clause("deep", strat_deep, run_deep, quick=160, thorough=1600,
+         floors={"plain operand on the left": .15, "chain on the left": .15, "clean end": .3},
+         doc="chains 2600..6000 (thorough ..12000) operators deep, plain and reflected, every operand kind"),
   Clause("broadcast", strat_broadcast, run_broadcast, quick=3200, thorough=50000,
          floors={"scalar in, scalar out": .02, "container kept": .15, "lazy in, lazy out": .15,
                  "keyword call": .04},
